@@ -613,6 +613,8 @@ def units():
     us.append(Unit("Solution.field_at_position[call contract]", "tdgl.solution.solution:Solution.field_at_position", run_field_at_position, props=["C20", "C08"], timeout=300))
     us.append(Unit("biot_savart_2d[call contract]", EM + ":biot_savart_2d", run_biot_savart_wrapper, props=["C20"], timeout=300))
     us.append(Unit("current_loop_vector_potential", EM + ":current_loop_vector_potential", run_loop_potential, props=["C20"], timeout=300))
+    us.append(Unit("sources.loop", "tdgl.sources.loop:loop_vector_potential, CurrentLoop",
+                   lambda m=None: __import__("checks.field_common", fromlist=["x"]).run_loop_source(m, prefixes=("C20.", "C08.")), props=["C20", "C08"], timeout=300))
     from checks import solution_common as sc
     us.append(Unit("Solution.vector_potential_at_position", "tdgl.solution.solution:Solution.vector_potential_at_position",
                    lambda m=None: sc.run_vector_potential(m, prefixes=("C20.",)), props=["C20", "C08"], timeout=900))
@@ -812,6 +814,11 @@ def replay_scope(unit, obl):
 
 def replay(unit, obl):
     import tdgl
+    if unit == "sources.loop":
+        from checks import field_common
+        bad, n = field_common.native_loop(0)
+        if bad:
+            return dict(confirmed=True, failing_input=bad[0], n_failing=len(bad), evaluations=n, tdgl_file=tdgl.__file__)
     try:
         bad, n = native(0)
     except Exception as e:
@@ -822,7 +829,7 @@ def replay(unit, obl):
 
 
 SOL_ = "tdgl.solution.solution"
-MUTANTS = [
+MUTANTS = __import__("checks.field_common", fromlist=["x"]).MUTANTS_LOOP + [
     dict(name="vector potential: xi not squared in the cell areas", edits=[(SOL_, "areas = device.mesh.areas * device.coherence_length.magnitude**2\n        units = units or f\"{self.field_units} * {device.length_units}\"", "areas = device.mesh.areas * device.coherence_length.magnitude\n        units = units or f\"{self.field_units} * {device.length_units}\"")], units=["Solution.vector_potential_at_position"]),
     dict(name="vector potential: film height ignored", edits=[(SOL_, "        dz = zs - layer.z0\n        # rho has units", "        dz = zs\n        # rho has units")], units=["Solution.vector_potential_at_position"]),
     dict(name="vector potential: mu0/2pi", edits=[(SOL_, "A = (ureg(\"mu_0\") / (4 * np.pi) * A).to(units)", "A = (ureg(\"mu_0\") / (2 * np.pi) * A).to(units)")], units=["Solution.vector_potential_at_position"]),
